@@ -70,7 +70,12 @@ class ArgSpec:
             case int():
                 return str(arg)
             case float():
-                return str(arg)
+                text = str(arg)
+                if "e" in text and "." not in text:
+                    # `1e-05` would lex as an identifier, the number rule needs a `.`
+                    mantissa, exponent = text.split("e")
+                    text = f"{mantissa}.0e{exponent}"
+                return text
 
     @staticmethod
     def _spec_parameter_list_type_str(name: str, arg: ParameterListType) -> str:
